@@ -2019,21 +2019,26 @@ class DynamicSpaceImpl(BaseSpaceImpl):
     ):
         self._dynbase = base
         base._dynamic_subs.append(self)
-        self._init_root(parent)
-        if cache:
-            cache._impl = self
-            self.interface = cache # must be set before Impl.__init__
-        BaseSpaceImpl.__init__(
-            self,
-            parent,
-            name,
-            container,
-            base.formula,
-            refs,
-            arguments,
-            base.doc
-        )
-        self._init_cells()
+        try:
+            self._init_root(parent)
+            if cache:
+                cache._impl = self
+                self.interface = cache # must be set before Impl.__init__
+            BaseSpaceImpl.__init__(
+                self,
+                parent,
+                name,
+                container,
+                base.formula,
+                refs,
+                arguments,
+                base.doc
+            )
+            self._init_cells()
+        except BaseException:
+            # A half-built space must not stay registered with its base
+            base._dynamic_subs.remove(self)
+            raise
 
     def _init_root(self, parent):
         self.rootspace = parent.rootspace
